@@ -28,6 +28,10 @@ def mutate(rnd, data, k=None):
             i = rnd.randrange(n); j = min(n, i + rnd.choice([1, 1, 2, 5, 20])); del b[i:j]
         elif op < 0.88 and n:                             # duplication of a slice (duplicated delimiters, repeated members)
             i = rnd.randrange(n); j = min(n, i + rnd.choice([1, 1, 2, 8, 40])); b[i:i] = b[i:j] * rnd.choice([1, 1, 2, 7])
+        elif op < 0.93 and n:                             # letter case of a word changed (header names, keywords, units)
+            i = rnd.randrange(n); j = i
+            while j < n and (65 <= b[j] <= 90 or 97 <= b[j] <= 122 or b[j] == 45): j += 1
+            w = bytes(b[i:j]); b[i:j] = rnd.choice([w.lower(), w.upper(), w.swapcase(), w.title()])
         else:                                             # a very long run
             i = rnd.randint(0, n); b[i:i] = rnd.choice([b"a", b" ", b"1", b"[", b"-", b"\r\n"]) * rnd.choice([100, 1000, 5000])
     return bytes(b)
@@ -79,7 +83,8 @@ class P(Prop):
             if nm == "Content-Length" and rnd.random() < 0.6: return rnd.choice(EXTREME)
             if nm == "Range" and rnd.random() < 0.6: return "bytes=%s-%s" % (rnd.choice(EXTREME + [""]), rnd.choice(EXTREME + [""]))
             return rnd.choice(["h", "3", "abc", "bytes=0-1", "a/b", "-1", ""])
-        hs = "".join("%s: %s\r\n" % (nm, hv(nm)) for nm in [rnd.choice(["Host", "Content-Length", "X-A", "Range", "Content-Type", "Origin"]) for _ in range(rnd.randint(0, 5))])
+        def cs(nm): return rnd.choice([nm, nm, nm, nm.lower(), nm.upper(), nm.capitalize()])
+        hs = "".join("%s: %s\r\n" % (cs(nm), hv(nm)) for nm in [rnd.choice(["Host", "Content-Length", "X-A", "Range", "Content-Type", "Origin"]) for _ in range(rnd.randint(0, 5))])
         return ("%s %s %s\r\n%s\r\n" % (m, u, v, hs)).encode() + rnd.choice([b"", b"abc", b"\xff\xfe", b"a\r\nb"])
 
     def response(self, rnd):
@@ -89,7 +94,8 @@ class P(Prop):
                 if nm == "Content-Length" and rnd.random() < 0.6: return rnd.choice(EXTREME)
                 if nm == "Content-Range" and rnd.random() < 0.6: return "bytes %s-%s/%s" % (rnd.choice(EXTREME), rnd.choice(EXTREME), rnd.choice(EXTREME))
                 return rnd.choice(["text/plain", "3", "bytes 0-2/10", "x", "bytes 5-1/3", ""])
-            hs = "".join("%s: %s\r\n" % (nm, hv(nm)) for nm in [rnd.choice(["Content-Type", "Content-Length", "Content-Range", "X-A"]) for _ in range(rnd.randint(0, 4))])
+            def cs(nm): return rnd.choice([nm, nm, nm, nm.lower(), nm.upper(), nm.capitalize()])
+            hs = "".join("%s: %s\r\n" % (cs(nm), hv(nm)) for nm in [rnd.choice(["Content-Type", "Content-Length", "Content-Range", "X-A"]) for _ in range(rnd.randint(0, 4))])
             return ("HTTP/1.1 %s %s\r\n%s\r\n" % (code, rsn, hs)).encode() + rnd.choice([b"", b"abc", b"\xff\xfe\r\n"])
         bd = rnd.choice(["String_separator", "B", "--x"])
         parts = b"\r\n".join(("--%s\r\nContent-Type: text/plain\r\nContent-Range: bytes %d-%d/%d\r\n\r\n" % (bd, rnd.randint(0, 3), rnd.randint(3, 9), rnd.randint(9, 20))).encode() + rnd.choice([b"x", b"ab\r\ncd", b"\xff"]) for _ in range(rnd.randint(0, 3)))
